@@ -16,12 +16,18 @@
 (*       client  [known   c1 is a persistent client,                       *)
 (*                useOwn  it uses its own settings,                        *)
 (*                filt    its own "filtering enabled",                     *)
-(*                svc     "inherit" | "none" | "active" | "paused"],       *)
+(*                svc     "inherit" | "none" | "active" | "paused" -- its  *)
+(*                        OWN set holds another service than the global],  *)
 (*       aaaaOff BOOLEAN  AAAA resolving disabled (C02: IPv6 hints),       *)
 (*       cache   BOOLEAN  the proxy's response cache is on,                *)
 (*       cust    1 | 2    which custom blocking addresses are configured]  *)
-(* req  [name, qtype \in {"A","AAAA","HTTPS","TXT"}, client \in {c1,c2}]   *)
-(* c2 is never a persistent client.                                        *)
+(* req  [name, qtype \in {"A","AAAA","HTTPS","TXT"}, client \in {c1,c2},   *)
+(*       cid \in {"", "x", "kid"}]                                         *)
+(* client is the source ADDRESS; cid the ClientID of an encrypted request  *)
+(* ("" none, "kid" the one configured for the persistent client, "x" one   *)
+(* that is configured for nobody).  The persistent client, when there is   *)
+(* one, owns address c1 and ClientID "kid"; a request is its own when the  *)
+(* ClientID says so or, failing that, when the address does.               *)
 (*                                                                         *)
 (* Legacy rewrites, the hosts container, safe browsing, parental control   *)
 (* and safe search are absent from every configuration (they belong to     *)
@@ -29,7 +35,8 @@
 (***************************************************************************)
 EXTENDS RuleEngine
 
-CONSTANT SvcDomains     \* registrable domains blocked by the configured service
+CONSTANTS SvcDomains,   \* registrable domains of the GLOBALLY blocked service
+          Svc2Domains   \* ... of the service in a client's OWN set (a different one)
 
 \* ------------------------------------------------------- response classes
 \* What the client gets, as far as the properties name it:
@@ -75,7 +82,7 @@ ModeResponse(mode, cu, qt, ips, hosts) ==
 \* dnsforward.Server.UpdatedProtectionStatus
 EffProt(cfg) == cfg.prot \in {"on", "expired"}
 
-Persistent(cfg, req) == req.client = "c1" /\ cfg.client.known
+Persistent(cfg, req) == cfg.client.known /\ (req.cid = "kid" \/ req.client = "c1")
 
 \* client.Storage.ApplyClientFiltering: own settings only when asked for.
 EffFilt(cfg, req) ==
@@ -83,13 +90,15 @@ EffFilt(cfg, req) ==
 
 \* filtering.DNSFilter.ApplyAdditionalFiltering: own blocked services replace
 \* the global ones; a schedule that contains "now" pauses them.
-EffSvc(cfg, req) ==
-    IF Persistent(cfg, req) /\ cfg.client.svc # "inherit" THEN cfg.client.svc ELSE cfg.svc
+OwnSvc(cfg, req) == Persistent(cfg, req) /\ cfg.client.svc # "inherit"
+EffSvc(cfg, req) == IF OwnSvc(cfg, req) THEN cfg.client.svc ELSE cfg.svc
 
-SvcMatches(n) == \E d \in SvcDomains : SubOrEq(n, d)
+\* the service set that applies to the request: the client's own or the global
+SvcMatches(cfg, req) ==
+    \E d \in (IF OwnSvc(cfg, req) THEN Svc2Domains ELSE SvcDomains) : SubOrEq(req.name, d)
 
 Rq(cfg, req, host, rrtype) ==
-    [host |-> host, rrtype |-> rrtype, c1 |-> (req.client = "c1"), named |-> cfg.client.known]
+    [host |-> host, rrtype |-> rrtype, c1 |-> (req.client = "c1"), named |-> Persistent(cfg, req)]
 
 SvcBlocked == [why |-> "S", ips |-> {}, hosts |-> FALSE]
 
@@ -104,7 +113,7 @@ CheckHost(cfg, req) ==
         prot == EffProt(cfg)
         m    == MatchHost(cfg.rules, filt, prot, Rq(cfg, req, NameHost(req.name), req.qtype))
     IN IF m.why # "N" THEN {m}
-       ELSE IF prot /\ EffSvc(cfg, req) = "active" /\ SvcMatches(req.name)
+       ELSE IF prot /\ EffSvc(cfg, req) = "active" /\ SvcMatches(cfg, req)
             THEN (IF filt THEN {SvcBlocked} ELSE {SvcBlocked, NotFound})
             ELSE {NotFound}
 
@@ -260,7 +269,7 @@ StmtExcepted(cfg, rq) ==
     \/ \E r \in LiveFor(BlockRules(cfg.rules), rq) : r.kind = "allow"
 StmtSvcBlocked(cfg, req) ==
     LET rq == Rq(cfg, req, NameHost(req.name), req.qtype)
-    IN /\ EffSvc(cfg, req) = "active" /\ SvcMatches(req.name)
+    IN /\ EffSvc(cfg, req) = "active" /\ SvcMatches(cfg, req)
        /\ ~StmtRuleBlocked(cfg, rq) /\ ~StmtExcepted(cfg, rq)
 StmtBlocked(cfg, req) ==
     \/ StmtRuleBlocked(cfg, Rq(cfg, req, NameHost(req.name), req.qtype))
